@@ -25,6 +25,9 @@ func solverSpecs(timeout time.Duration) []SolverSpec {
 		{"z3-5.1.0", []string{"z3-new", "-smt2", fmt.Sprintf("-t:%d", ms)}, ""},
 		{"z3-4.8.12", []string{"z3", "-smt2", fmt.Sprintf("-t:%d", ms)}, ""},
 		{"cvc5-1.0", []string{"cvc5", "--lang=smt2", fmt.Sprintf("--tlimit=%d", ms), "--produce-models"}, "(set-logic ALL)\n"},
+		// the same solver with another random seed: quantifier instantiation on the larger heap invariants is
+		// sensitive to it (a query that times out with the default seed came back unsat in a second with any other)
+		{"z3-5.1.0-seed1", []string{"z3-new", "-smt2", fmt.Sprintf("-t:%d", ms), "smt.random_seed=1", "sat.random_seed=1"}, ""},
 	}
 }
 
